@@ -196,13 +196,13 @@ func VP_C05_DistributeBuy3() {
 // C16: the final loop of DistributeOrderAmountToOrders ranges over a Go map. Its result must not depend on the
 // iteration order: the same symbolic inputs are run under insertion order and under the reverse order and every
 // observable output is compared (2-safety by self-composition; for two entries these are all orders).
-func VP_C16_DistributeOrderIndependent() {
+func vpOrderIndependent(n int) {
 	zzvp.Option("no-region-merge") // the second run then follows the first one's branch decisions without forking
 	dir := Buy
 	if zzvp.AnyBool() {
 		dir = Sell
 	}
-	os, bs := vpTickOrders(dir, 2)
+	os, bs := vpTickOrders(dir, n)
 	p := vpGridPrice(2)
 	amt := zzvp.AnySdkInt()
 	zzvp.Assume(amt.IsPositive() && amt.LT(TotalMatchableAmount(os, p)))
@@ -228,3 +228,104 @@ func VP_C16_DistributeOrderIndependent() {
 			bs[i].ReceivedDemandCoinAmount.Equal(bs2[i].ReceivedDemandCoinAmount), "fills-independent-of-map-order")
 	}
 }
+
+func VP_C16_DistributeOrderIndependent() { vpOrderIndependent(2) }
+
+// Three orders: a dropped order plus two that share a remainder is the smallest case in which the order of a derived
+// list matters. Fully symbolic, three orders do not finish (more than an hour); here two untouched orders have amounts
+// from a small grid and the third order and the distributed amount are symbolic. Insertion order vs its reverse.
+func VP_C16_DistributeOrderIndependent3() {
+	zzvp.Option("no-region-merge")
+	dir := Buy
+	if zzvp.AnyBool() {
+		dir = Sell
+	}
+	p := vpGridPrice(2)
+	grid := [][2]int64{{1000, 1000}, {1000, 999}, {300, 700}}
+	if zzvp.Thorough() {
+		grid = append(grid, [2]int64{1, 1000000}, [2]int64{100, 100}, [2]int64{12345, 67890})
+	}
+	g := grid[zzvp.Choose(len(grid))]
+	fresh := func(a sdkmath.Int) *BaseOrder { return NewBaseOrder(dir, p, a, OfferCoinAmount(dir, p, a)) }
+	c := zzvp.AnySdkInt()
+	zzvp.Assume(c.IsPositive() && c.LTE(sdkmath.NewInt(1000000000)))
+	bs := []*BaseOrder{fresh(sdkmath.NewInt(g[0])), fresh(sdkmath.NewInt(g[1])), fresh(c)}
+	amt := zzvp.AnySdkInt()
+	var os, os2 []Order
+	var bs2 []*BaseOrder
+	for _, o := range bs {
+		os = append(os, o)
+		k := new(BaseOrder)
+		*k = *o
+		os2 = append(os2, k)
+		bs2 = append(bs2, k)
+	}
+	zzvp.Assume(amt.IsPositive() && amt.LT(TotalMatchableAmount(os, p)))
+	SortOrders(os)
+	SortOrders(os2)
+	zzvp.ReverseMapOrder(false)
+	d1 := DistributeOrderAmountToOrders(os, amt, p)
+	zzvp.ReverseMapOrder(true)
+	d2 := DistributeOrderAmountToOrders(os2, amt, p)
+	zzvp.ReverseMapOrder(false)
+	zzvp.Reach("both-orders-ran-3")
+	zzvp.Assert(d1.Equal(d2), "quote-diff-independent-of-map-order")
+	for i := range bs {
+		zzvp.Assert(bs[i].OpenAmount.Equal(bs2[i].OpenAmount) && bs[i].PaidOfferCoinAmount.Equal(bs2[i].PaidOfferCoinAmount) &&
+			bs[i].ReceivedDemandCoinAmount.Equal(bs2[i].ReceivedDemandCoinAmount), "fills-independent-of-map-order")
+	}
+}
+
+// an order with a batch age (BaseOrder always answers 0); everything else is the real BaseOrder
+type vpBatchOrder struct {
+	*BaseOrder
+	Batch uint64
+}
+
+func (o *vpBatchOrder) GetBatchID() uint64 { return o.Batch }
+
+// C05, one tick with orders of one or two batch ages (older groups are served first, the last served group pro rata):
+// the tick takes exactly the amount the other side was given - never more - and every order stays within its limits.
+func vpDistributeToTick(dir OrderDirection) {
+	zzvp.Option("no-region-merge")
+	ages := [][2]uint64{{1, 1}, {1, 2}, {2, 1}}[zzvp.Choose(3)]
+	var os []Order
+	var bs []*BaseOrder
+	for i := 0; i < 2; i++ {
+		b := vpAnyOrder(dir)
+		bs = append(bs, b)
+		os = append(os, &vpBatchOrder{BaseOrder: b, Batch: ages[i]})
+	}
+	p := vpGridPrice(2)
+	amt := zzvp.AnySdkInt()
+	total := TotalMatchableAmount(os, p)
+	// callers (MatchAtSinglePrice, Match): 0 < amt <= matchable amount of the tick, worth at least one quote unit
+	zzvp.Assume(amt.IsPositive() && amt.LTE(total))
+	zzvp.Assume(p.MulInt(amt).TruncateInt().IsPositive())
+	var before []vpSnap
+	var cap []sdkmath.Int
+	for _, o := range bs {
+		before = append(before, vpSnapOf(o))
+		cap = append(cap, MatchableAmount(o, p))
+	}
+	diff := DistributeOrderAmountToTick(&orderBookTick{price: p, orders: os}, amt, p)
+	zzvp.Reach("tick-distributed")
+	sum, q := sdkmath.ZeroInt(), sdkmath.ZeroInt()
+	for i, o := range bs {
+		f := vpFillLaws(o, before[i], p, "")
+		zzvp.Assert(f.LTE(cap[i]), "never-filled-beyond-its-matchable-amount")
+		sum = sum.Add(f)
+		if dir == Buy {
+			q = q.Add(o.PaidOfferCoinAmount.Sub(before[i].paid))
+		} else {
+			q = q.Sub(o.ReceivedDemandCoinAmount.Sub(before[i].recv))
+		}
+	}
+	zzvp.Assert(sum.LTE(amt), "the-tick-never-takes-more-than-the-distributed-amount")
+	zzvp.Assert(zzvp.ZD(p).Mul(zzvp.ZI(amt.Sub(sum))).LT(zzvp.Pow10(18).Mul(zzvp.ZN(2))), "shortfall-worth-less-than-one-quote-unit-per-order")
+	zzvp.Assert(sum.Equal(amt), "the-tick-takes-exactly-the-distributed-amount") // sell side: known finding D21
+	zzvp.Assert(diff.Equal(q), "quote-diff-is-the-sum-over-the-fills")
+}
+
+func VP_C05_DistributeToTickSell() { vpDistributeToTick(Sell) }
+func VP_C05_DistributeToTickBuy()  { vpDistributeToTick(Buy) }
